@@ -114,9 +114,17 @@ func ruleSegmentsEmitOrFail(c *Ctx, rule string) {
 				}
 				for _, e := range l.elems {
 					n++
+					elemVal, _ := e.(ssa.Value)
 					path := (&an.Query{
-						Facts:      true,
-						Deep:       deepDefault,
+						Facts: true,
+						Deep:  deepDefault,
+						// the parser returns no nil segment (a nil guard in the loop is dead code, not a way through)
+						Assume: func(cond ssa.Value) (bool, bool) {
+							if x, k, eq, ok := an.CondAtom(cond); ok && k.Value == nil && elemVal != nil && x == elemVal {
+								return !eq, true
+							}
+							return false, false
+						},
 						Block:      func(in ssa.Instruction) bool { _, ok := isBufWrite(in); return ok || in == e },
 						TargetEdge: loopBackEdge(l),
 					}).Search(an.After(e))
